@@ -81,6 +81,18 @@ ENTRIES = {
                 "fixed (panic on bracketed IPv6 / non-DNS hosts; Wss:// sent in clear).",
         "design_ref": "DESIGN.md §5 C12",
     },
+    "C17": {
+        "text": "Theorem for every request (any service entry point, TLS or not, any http::Version constant, CONNECT or not, any "
+                "combination of scheme/host/port present, any host string whatever rustls thinks of it): the model of the request path "
+                "(pool key, version -> protocol, TCP URI validation, TLS server name, request checks) - which keeps each panic!/expect/"
+                "unreachable! site of the real code as a panic outcome of its helper - never reaches one, because the services' guards "
+                "exclude it. Tied to the real Client / ConnectionPoolService / ConnectorService by differential runs over a request "
+                "grammar and an exhaustive grid every run, with panics observed in the caller and in spawned tasks.",
+        "note": "Trusted: Lean kernel; http/hyper/rustls behaviour assumed; TCP connect replaced by a duplex after the real URI "
+                "validation. Four panic defects found and fixed (HTTP/0.9 and HTTP/3 version constants; relative URI / CONNECT "
+                "without authority in the HTTP/1 checks; TLS server name - shared with C12).",
+        "design_ref": "DESIGN.md §5 C17",
+    },
     "C13": {
         "text": "Theorems for every request (any method, scheme, host, port, path, query, version, header list): on an HTTP/1 "
                 "connection the target is origin-form with path/query preserved and '/' for an empty path (authority-form for "
